@@ -175,6 +175,15 @@ struct TableOpt {
   nop::Entry<int, 3> c;
   NOP_TABLE(TableOpt, a, b, c);
 };
+// Non-ascending and 64-bit ids, a deleted entry in the middle, wrapper-typed values.
+struct TableWide {
+  nop::Entry<std::vector<std::int32_t>, 7> v;
+  nop::Entry<nop::Result<ErrorEnum, std::string>, 0> r;
+  nop::Entry<int, 5, nop::DeletedEntry> gone;
+  nop::Entry<nop::Variant<int, std::string>, 2> var;
+  nop::Entry<std::uint64_t, (1ull << 40) + 3> big;
+  NOP_TABLE_NS("probe.wide", TableWide, v, r, gone, var, big);
+};
 struct HoldsTable {
   int before;
   TableV2 table;
